@@ -51,6 +51,13 @@ partial def jProg (j : Json) : Except String Comb := do
   | "many", 2 => pure (.many (← jProg a[1]!))
   | "textSeq", 3 => pure (.textSeq (← jNats a[1]!) (← a[2]!.getBool?))
   | "restOfChunk", 1 => pure .restOfChunk
+  | "peekAt", 4 =>
+    let g ← match (← a[3]!.getStr?) with
+      | "strict" => pure Guard.strict
+      | "offByOne" => pure Guard.offByOne
+      | "none" => pure Guard.none
+      | x => throw ("guard " ++ x)
+    pure (.peekAt (← jNat a[1]!) (← jNat a[2]!) g)
   | "ifTok", 4 => pure (.ifTok (← jNats a[1]!) (← jProg a[2]!) (← jProg a[3]!))
   | "tableLoop", 4 => pure (.tableLoop (← jNats a[1]!) (← jProg a[2]!) (← a[3]!.getBool?))
   | _, _ => throw ("prog " ++ k)
